@@ -34,6 +34,11 @@ class UserDeleteNode(ActionGroup):
         """
         super().__init__(tracks, actions=[])
         self.tracks: SolutionTracks  # Narrow type from base class
+        # validate the pixels before touching the tracks
+        if pixels is not None:
+            if tracks.segmentation is None:
+                raise ValueError("Cannot set pixels when segmentation is None")
+            tracks.segmentation[pixels]  # IndexError for pixels outside the array
         # delete adjacent edges
         had_predecessor = len(self.tracks.predecessors(node)) > 0
         for pred in self.tracks.predecessors(node):
